@@ -48,7 +48,7 @@ def main() -> int:
         files = ", ".join(f.replace("liquid2/", "") for f in meta.get("files", []))
         note = " — " + meta["status"].split(":")[0] if "status" in meta else ""
         out.append(f"| {sid}{note} | {files} | {needs} | {'passes' if clean == 'clean_ok' else 'FAILS'} / {'fails' if patched == 'patched_fails' else 'PASSES'} | {'<br>'.join(res)} |")
-    out += ["", f"Detected at the quick tier by the property's own check: **{det} of {len(rows)}**.", ""]
+    out += ["", f"Detected at the quick tier (by the property's own check, or - where a second check is listed - by that one): **{det} of {len(rows)}**.", ""]
     (ROOT / "RESULTS.md").write_text("\n".join(out))
     print(f"{det}/{len(rows)} detected")
     return 0
